@@ -314,7 +314,10 @@ func c02Small(c *Ctx, po bool, N int, ringQ, ringP *ring.Ring, ch c02Chain) {
 			pQ := ring.NewPoly(N, 0)
 			copy(pQ.Coeffs[0], row0)
 			pP := c02JunkPoly(r, N, levelP)
-			rqp.ExtendBasisSmallNormAndCenter(pQ, levelP, pQ, pP)
+			if c02Panics(func() { rqp.ExtendBasisSmallNormAndCenter(pQ, levelP, pQ, pP) }) {
+				c.Probe("no_panic", "extsmall", "C02/ExtendBasisSmallNormAndCenter/panic", "panicked")
+				continue
+			}
 			out := c02RowsCopy(pP, levelP+1)
 			args := fmt.Sprintf("%d %s %d %s", q0, Vec(ch.P), levelP, Vec(row0))
 			if !po {
@@ -345,7 +348,12 @@ func c02Small(c *Ctx, po bool, N int, ringQ, ringP *ring.Ring, ch c02Chain) {
 				inRow := append([]uint64(nil), pin.Coeffs[0]...)
 				buff := c02JunkPoly(r, N, 0)
 				pP2 := c02JunkPoly(r, N, levelP)
-				rlwe.ExtendBasisSmallNormAndCenterNTTMontgomery(ringQ, ringP.AtLevel(levelP), pin, buff, pP2)
+				if c02Panics(func() {
+					rlwe.ExtendBasisSmallNormAndCenterNTTMontgomery(ringQ, ringP.AtLevel(levelP), pin, buff, pP2)
+				}) {
+					c.Probe("no_panic", "extsmallntt", "C02/ExtendBasisSmallNormAndCenterNTTMontgomery/panic", "panicked")
+					continue
+				}
 				if !po {
 					c.Emit(fmt.Sprintf("extsmallntt %d %d %d %s %s %d %s", N, q0, ringQ.SubRings[0].PrimitiveRoot, Vec(ch.P), Vec(gP), levelP, Vec(inRow)), Mat(c02RowsCopy(pP2, levelP+1)))
 				}
